@@ -154,7 +154,7 @@ def _mean_scale(rng, shape):
     return rng.normal(shape, 1.2)
 
 
-def gen_root(rng, cls, R, D, Dx=None, variant=None, cond_max=1e2):
+def gen_root(rng, cls, R, D, Dx=None, variant=None, cond_max=1e2, scale=1.0):
     """Constructor kwargs (numpy) for a root of class `cls` in one documented argument combination."""
     kw = {}
     if cls == "ConjugateFactor":
@@ -203,9 +203,11 @@ def gen_root(rng, cls, R, D, Dx=None, variant=None, cond_max=1e2):
             kw["ln_det_Sigma"] = -kw["ln_det_Lambda"]
     elif cls in ("GaussianPDF", "GaussianDiagPDF"):
         diag = cls == "GaussianDiagPDF"
-        Sig = rng.spd(R, D, cond_max, diag=diag)
+        Sig = rng.spd(R, D, cond_max, diag=diag) * scale
         kw["Sigma"] = Sig
-        kw["mu"] = _mean_scale(rng, (R, D))
+        # means are kept within a few standard deviations of the origin: the information form
+        # -x'Lx/2 + x'nu + ln_beta cancels catastrophically otherwise (a floating-point limit, not a defect)
+        kw["mu"] = _mean_scale(rng, (R, D)) * np.sqrt(scale)
         variant = variant or rng.choice(["sigma", "sigma", "sigma_lambda", "all"])
         if variant in ("sigma_lambda", "all"):
             kw["Lambda"] = np.linalg.inv(Sig)
@@ -517,8 +519,6 @@ def exec_step(w, rec, i):
     w.stats["op." + rec["op"] + ("." + rec["name"] if rec["op"] == "obs" else "")] += 1
     _reach(w, rec, before)
     where = f"step {i} {rec['op']}"
-    for s in touched:
-        ref.envelope(s.obj, s.kind)
 
     def guarded(fn, slots_to_taint):
         try:
@@ -535,7 +535,11 @@ def exec_step(w, rec, i):
     if "samp" in w.invariants and rec["op"] == "obs" and rec.get("name") == "sample":
         w.stats["chk.I_samp"] += guarded(lambda: _sample_check(w, rec, i, where), [])
     if prod_pre is not None:
+        # the product oracle knows the exact expectation: judge before the envelope may discard
         w.stats["chk.I_prod"] += guarded(lambda: _prod_post(w, rec, prod_pre, touched[0], where), touched)
+    for s in touched:
+        guarded(lambda: ref.envelope(s.obj, s.kind), [s])
+
     for sid, sn in snaps.items():
         w.stats["chk.I_imm"] += guarded(lambda: ref.I_imm(w.slots[sid].obj, sn, where=where + f" operand {sid}"), [w.slots[sid]])
     for sid in ops:
